@@ -844,7 +844,8 @@ class Summaries:
         if meth == "size":
             if m0.base is None:
                 return Int(z3.BitVecVal(len(m0.entries), 64), 64, False)
-            return Int(z3.BitVec(ex.fresh_name("pmap_size"), 64), 64, False)
+            # a function of the map's identity (base + how many entries were written on top), so two runs agree
+            return Int(z3.BitVec("pmap_size(%s+%d)" % (m0.base, len(m0.entries)), 64), 64, False)
         if meth in ("get", "contains_key"):
             for (k, v) in reversed(m0.entries):
                 e = veq(ex, k, key)
